@@ -1,7 +1,7 @@
 (* C07 — Every string that is not a valid RFC 9535 query is rejected.  Statements only.
    The whole-language statement is kept visible and is NOT proved (partial): *)
 From Coq Require Import List NArith ZArith Bool.
-From JP Require Import Base Ast Peg Dec2Bin Known Build Concrete BuildFacts FragParse FragBuild RejectFacts RejectMore RejectRange.
+From JP Require Import Base Ast Peg Dec2Bin Known Build Concrete BuildFacts FragParse FragBuild FragWs RejectFacts RejectMore RejectRange RejectBlank.
 From JP.gen Require Import Grammar.
 Import ListNotations.
 
@@ -133,6 +133,32 @@ Theorem C07_uppercase_literal_rejected : forall c rest,
   (65 <= c <= 90)%N -> parse_query (36%N :: 91%N :: 63%N :: 64%N :: 61%N :: 61%N :: c :: rest) = PErr.   (* $[?@==True ... *)
 Proof. exact uppercase_literal_rejected. Qed.
 Print Assumptions C07_uppercase_literal_rejected.
+
+(* ---- blank space where the RFC forbids it but the GRAMMAR accepts it (pest skips blanks implicitly between the parts
+   of a non-atomic rule): the checks of parser.rs reject.  RejectBlank.v derives the successful run of the grammar,
+   with the blank run consumed by the implicit skip, and then the walk of parser.rs that refuses the pair tree ---- *)
+
+(* after the dot of a shorthand: $.<blanks>name<any filter-free continuation>, for every non-empty blank run, every
+   shorthand name and every continuation *)
+Theorem C07_blank_after_dot_rejected : forall w n q,
+  blank_run w -> w <> [] -> name_ok n -> Forall seg_ok q ->
+  parse_query (36%N :: 46%N :: w ++ n ++ segs_text q) = PErr.
+Proof. exact blank_after_dot_rejected. Qed.
+Print Assumptions C07_blank_after_dot_rejected.
+
+(* after the two dots of a descendant segment: $..<blanks>name... *)
+Theorem C07_blank_after_dotdot_rejected : forall w n q,
+  blank_run w -> w <> [] -> name_ok n -> Forall seg_ok q ->
+  parse_query (36%N :: 46%N :: 46%N :: w ++ n ++ segs_text q) = PErr.
+Proof. exact blank_after_dotdot_rejected. Qed.
+Print Assumptions C07_blank_after_dotdot_rejected.
+
+(* between a function name and its opening parenthesis: $[?match<blanks>(@,'a')], for every non-empty blank run *)
+Theorem C07_blank_after_function_name_rejected : forall b w,
+  blank_b b = true -> blank_run w ->
+  parse_query ([36; 91; 63; 109; 97; 116; 99; 104]%N ++ b :: w ++ [40; 64; 44; 39; 97; 39; 41; 93]%N) = PErr.
+Proof. exact match_blank_rejected. Qed.
+Print Assumptions C07_blank_after_function_name_rejected.
 
 (* near-misses, evaluated inside Coq on the grammar of this run (a test, not the unbounded claim) *)
 Definition rejected (s : str) : bool := match parse_query s with PErr => true | _ => false end.
